@@ -561,6 +561,19 @@ def extract_linear_coefficient(expr: Expression, var: Variable) -> float:
     return _extract_coefficient_impl(expr, var)
 
 
+def _constant_factor(expr: Expression) -> float | None:
+    """Value of a constant (degree 0) sub-expression such as ``Constant(2) + Constant(3)``.
+
+    Returns None when the expression depends on a variable. A degree-0
+    expression equals its own constant term.
+    """
+    if isinstance(expr, Constant):
+        return float(expr.value)
+    if _compute_degree_impl(expr) == 0:
+        return _extract_constant_impl(expr)
+    return None
+
+
 def _extract_coefficient_impl(expr: Expression, var: Variable) -> float:
     """Recursive coefficient extraction."""
     from optyx.core.vectors import LinearCombination, VectorSum
@@ -620,8 +633,14 @@ def _extract_coefficient_impl(expr: Expression, var: Variable) -> float:
                 return _extract_coefficient_impl(expr.left, var) * float(
                     expr.right.value
                 )
-            # For linear expressions, at least one side must be constant
-            # This fallback handles edge cases where constants are nested
+            # For linear expressions, at least one side is a constant
+            # sub-expression (e.g. (2 + 3) * x)
+            left_factor = _constant_factor(expr.left)
+            if left_factor is not None:
+                return left_factor * _extract_coefficient_impl(expr.right, var)
+            right_factor = _constant_factor(expr.right)
+            if right_factor is not None:
+                return _extract_coefficient_impl(expr.left, var) * right_factor
             return 0.0
 
         if expr.op == "/":
@@ -689,8 +708,18 @@ def _extract_constant_impl(expr: Expression) -> float:
     if isinstance(expr, Variable):
         return 0.0
 
-    # Vector expressions have no constant term (purely linear)
-    if isinstance(expr, (LinearCombination, VectorSum)):
+    # Sums over VectorVariable elements have no constant term; a
+    # LinearCombination over a VectorExpression inherits its elements' constants
+    if isinstance(expr, VectorSum):
+        return 0.0
+    if isinstance(expr, LinearCombination):
+        if hasattr(expr.vector, "_expressions"):
+            return float(
+                sum(
+                    float(expr.coefficients[i]) * _extract_constant_impl(elem)
+                    for i, elem in enumerate(expr.vector._expressions)  # type: ignore[union-attr]
+                )
+            )
         return 0.0
 
     if isinstance(expr, BinaryOp):
@@ -710,6 +739,13 @@ def _extract_constant_impl(expr: Expression) -> float:
                 return float(expr.left.value) * _extract_constant_impl(expr.right)
             if isinstance(expr.right, Constant):
                 return _extract_constant_impl(expr.left) * float(expr.right.value)
+            # One side is a constant sub-expression (e.g. (2 + 3) * (x + 1))
+            if _compute_degree_impl(expr.left) == 0 or (
+                _compute_degree_impl(expr.right) == 0
+            ):
+                return _extract_constant_impl(expr.left) * _extract_constant_impl(
+                    expr.right
+                )
             return 0.0
 
         if expr.op == "/":
@@ -722,6 +758,8 @@ def _extract_constant_impl(expr: Expression) -> float:
                 exp = int(expr.right.value)
                 if exp == 0:
                     return 1.0  # x**0 = 1
+                if exp == 1:
+                    return _extract_constant_impl(expr.left)  # e**1 = e
             return 0.0
 
     if isinstance(expr, UnaryOp):
@@ -960,7 +998,18 @@ def _extract_all_coefficients_impl(
                     expr.left, var_index, result, multiplier * float(expr.right.value)
                 )
                 return
-            # Both sides non-constant - no linear contribution
+            # One side may still be a constant sub-expression, e.g. (2 + 3) * x
+            left_factor = _constant_factor(expr.left)
+            if left_factor is not None:
+                _extract_all_coefficients_impl(
+                    expr.right, var_index, result, multiplier * left_factor
+                )
+                return
+            right_factor = _constant_factor(expr.right)
+            if right_factor is not None:
+                _extract_all_coefficients_impl(
+                    expr.left, var_index, result, multiplier * right_factor
+                )
             return
 
         if expr.op == "/":
